@@ -316,6 +316,9 @@ struct Scenario {
   void (*shrink)(const Plan& plan, std::vector<Plan>& out);
   // Optional: describes the plan in one line for evidence samples.
   std::string (*summary)(const Plan& plan);
+  // Optional: enumerating scenarios derive the plan from the run's index instead of from a PRNG (bounded-exhaustive
+  // enumeration of short histories); when set it replaces `generate`.
+  Plan (*generate_indexed)(uint64_t local_index, bool thorough);
 };
 
 void register_scenario(const Scenario& s);
